@@ -1054,6 +1054,14 @@ func inLoop(in ssa.Instruction) bool {
 // loadOfFreeVarAlloc: if v is a load (*x) of a free variable or alloc, return the
 // allocation in the defining function that holds it.
 func cellOf(v ssa.Value) ssa.Value {
+	// a change of channel direction or of a named type does not change the variable
+	for {
+		if ct, ok := v.(*ssa.ChangeType); ok {
+			v = ct.X
+			continue
+		}
+		break
+	}
 	u, ok := v.(*ssa.UnOp)
 	if !ok || u.Op != token.MUL {
 		return nil
